@@ -66,8 +66,7 @@ type lifeCase struct {
 }
 
 func lifeMsg(ms uint64, i int) []byte {
-	n := pu.MsgLens[int((ms+uint64(i)*5)%uint64(len(pu.MsgLens)))]
-	return pu.DetBytes(ms*1000003+uint64(i)+1, n)
+	return pu.DetBytes(ms*1000003+uint64(i)+1, pu.LifeMsgLen(ms, i))
 }
 
 func runLife(r *ev.Recorder, c *lifeCase) (string, string) {
